@@ -707,3 +707,86 @@ func VerifC04Ipam() {
 	vrtObserve("got", got)
 	vrtAssert("one-config-per-subnet-base-kept-override-merged", vrtDeepEqual(got, want) && len(l) == len(want))
 }
+
+// VerifC04HostsUnion: extra_hosts of a later file are added to those of the earlier one, a host=address pair both files
+// name appearing once - for every subset of four pairs on either side (two of them for the same host), in list or
+// mapping spelling, for the service and for its build.
+func VerifC04HostsUnion() {
+	pairs := [][2]string{{"alpha", "10.0.0.1"}, {"beta", "10.0.0.2"}, {"gamma", "10.0.0.3"}, {"alpha", "10.0.9.9"}}
+	mb := 1 + vrtChoice("baseSubset", 15)
+	mo := 1 + vrtChoice("laterSubset", 15)
+	spell := func(mask int, asList bool) any {
+		if asList {
+			var l []any
+			for i, p := range pairs {
+				if mask&(1<<i) != 0 {
+					l = append(l, p[0]+"="+p[1])
+				}
+			}
+			return l
+		}
+		m := map[string]any{}
+		for i, p := range pairs {
+			if mask&(1<<i) != 0 {
+				if old, ok := m[p[0]]; ok {
+					m[p[0]] = []any{old, p[1]}
+				} else {
+					m[p[0]] = p[1]
+				}
+			}
+		}
+		return m
+	}
+	baseList := vrtChoice("baseList", 2) == 1
+	overList := vrtChoice("overList", 2) == 1
+	inBuild := vrtChoice("inBuild", 2) == 1
+	mk := func(first bool, v any) map[string]any {
+		s := map[string]any{}
+		if first {
+			s["image"] = "i"
+		}
+		if inBuild {
+			b := map[string]any{"extra_hosts": v}
+			if first {
+				b["context"] = "/ctx"
+			}
+			s["build"] = b
+		} else {
+			s["extra_hosts"] = v
+		}
+		return map[string]any{"services": map[string]any{"s": s}}
+	}
+	p, err := tcLoadProject(nil, nil, mk(true, spell(mb, baseList)), mk(false, spell(mo, overList)))
+	vrtObserve("err", err != nil)
+	vrtAssert("loads", err == nil)
+	if err != nil {
+		vrtObserve("msg", err.Error())
+		return
+	}
+	hosts := p.Services["s"].ExtraHosts
+	if inBuild {
+		hosts = p.Services["s"].Build.ExtraHosts
+	}
+	vrtObserve("hosts", hosts)
+	union := mb | mo
+	total := 0
+	for i, pr := range pairs {
+		n := 0
+		for _, a := range hosts[pr[0]] {
+			if a == pr[1] {
+				n++
+			}
+		}
+		if union&(1<<i) != 0 {
+			vrtAssert("pair-of-either-file-present-once", n == 1)
+			total++
+		} else {
+			vrtAssert("pair-of-neither-file-absent", n == 0)
+		}
+	}
+	have := 0
+	for _, l := range hosts {
+		have += len(l)
+	}
+	vrtAssert("nothing-else", have == total)
+}
